@@ -19,8 +19,8 @@ S0 == [admin |-> NoId, funcs |-> [r \in Roles2 |-> {}], tokens |-> [p \in Ids3 |
 S1 == [admin |-> "A", funcs |-> ("r1" :> {"f1"} @@ "r2" :> {"f2"}),
        tokens |-> ("A" :> {"r1"} @@ "B" :> {"r2"} @@ "C" :> {}), deleg |-> NoDelegs,
        now |-> 0, assigned |-> {<<"A", "r1">>, <<"B", "r2">>}]
-\* S1 followed by Delegate(A -> B, r1, period 2, level 1)
-S2 == [S1 EXCEPT !.deleg = [NoDelegs EXCEPT !["B"]["r1"] = [root |-> "A", expire |-> 2, level |-> 1]]]
+\* S1 followed by Delegate(A -> B, r1, period 1, level 1): two ticks later the delegation has expired
+S2 == [S1 EXCEPT !.deleg = [NoDelegs EXCEPT !["B"]["r1"] = [root |-> "A", expire |-> 1, level |-> 1]]]
 Inits2 == {S2}
 Inits0 == {S0}
 Inits1 == {S1}
